@@ -243,6 +243,56 @@ def harness_bin(harness):
     return os.path.join(TARGET, "debug", harness)
 
 
+INCRATE_TARGET = TARGET + "-incrate"
+HOOK_MARK = "aws_s2n_quic_verif"
+
+
+def incrate_build():
+    """tie D for crate-private code: build the unit-test binary of s2n-quic-transport from REPO's working tree with
+    the verification hook enabled (`--cfg aws_s2n_quic_verif`, MANIFEST.hooks) — the hook `include!`s
+    /verif/hooks/transport_stream.rs as module `stream::verif` — and install a wrapper `vh-incrate` next to the
+    harness binaries with the same calling convention (`vh-incrate <component>`, ops on stdin, answers on stdout)."""
+    modrs = os.path.join(REPO, "quic", "s2n-quic-transport", "src", "stream", "mod.rs")
+    try:
+        if HOOK_MARK not in open(modrs).read():
+            return False, f"the verification hook (cfg {HOOK_MARK}) is missing from {modrs}"
+    except OSError as e:
+        return False, str(e)
+    env = {"CARGO_TARGET_DIR": INCRATE_TARGET, "CARGO_NET_OFFLINE": "true",
+           "RUSTFLAGS": "--cfg s2n_internal_dev --cfg aws_s2n_quic_verif",
+           "AWS_S2N_QUIC_VERIF_HOOKS": os.path.join(VERIF, "hooks")}
+    with Lock("cargo-incrate"):
+        rc, out = sh(["cargo", "test", "-p", "s2n-quic-transport", "--lib", "--no-run", "--offline",
+                      "--message-format=json"], cwd=REPO, env=env, timeout=7200)
+    exe = None
+    msgs = []
+    for line in out.split("\n"):
+        if not line.startswith("{"):
+            if line.strip():
+                msgs.append(line)
+            continue
+        try:
+            m = json.loads(line)
+        except ValueError:
+            continue
+        if m.get("reason") == "compiler-artifact" and m.get("executable") and m.get("target", {}).get("name") == "s2n_quic_transport":
+            exe = m["executable"]
+        elif m.get("reason") == "compiler-message" and m.get("message", {}).get("level") == "error":
+            msgs.append(m["message"].get("rendered", "")[:1500])
+    if rc != 0 or not exe:
+        return False, "\n".join(msgs)[-4000:]
+    os.makedirs(os.path.join(TARGET, "debug"), exist_ok=True)
+    w = harness_bin("vh-incrate")
+    with open(w + ".tmp", "w") as f:
+        f.write("#!/bin/sh\n# generated by tools/vlib.py incrate_build()\n"
+                "t=$(mktemp -d) || exit 3\ncat > \"$t/in\"\n"
+                f"VERIF_COMP=\"$1\" VERIF_IN=\"$t/in\" VERIF_OUT=\"$t/out\" '{exe}' stream::verif::line_protocol --exact --test-threads 1 >\"$t/log\" 2>&1\n"
+                "rc=$?\nif [ -f \"$t/out\" ]; then cat \"$t/out\"; else cat \"$t/log\" >&2; rc=3; fi\nrm -rf \"$t\"\nexit $rc\n")
+    os.chmod(w + ".tmp", 0o755)
+    os.replace(w + ".tmp", w)
+    return True, exe
+
+
 def run_lines(cmd, lines, timeout=3600, cwd=None, env=None):
     data = "\n".join(lines) + "\n"
     e = dict(os.environ)
